@@ -838,6 +838,8 @@ def gen_circuit(rng, cls, sym, dims, boundary, mode, depth):
     gates = []
     for _ in range(depth):
         r = rng.random()
+        if len(sites) == 1:
+            r = 0.0    # a single site: local gates only
         if r < 0.2:    # local gate
             s = rng.choice(sites)
             if cls == "spin12":
@@ -1848,7 +1850,7 @@ def part_add(ctx):
     rng = ctx.rng
     n = 14 if ctx.quick else 120
     combos = [("spinless", "Z2"), ("spinless", "U1"), ("spin12", "Z2"), ("spin12", "dense"), ("spinful", "U1xU1xZ2"), ("tJ", "U1")]
-    lats = [((1, 2), "obc"), ((2, 2), "obc"), ((2, 3), "obc"), ((3, 2), "obc"), ((3, 1), "cylinder"), ((2, 2), "cylinder")]
+    lats = [((1, 1), "obc"), ((1, 2), "obc"), ((2, 2), "obc"), ((2, 3), "obc"), ((3, 2), "obc"), ((3, 1), "cylinder"), ((2, 2), "cylinder")]
     for _ in range(n):
         cls, sym = rng.choice(combos)
         dims, boundary = rng.choice(lats)
